@@ -1,0 +1,74 @@
+//go:build verif
+
+// Contracts for package nats (the NATS adapter), read by /verif/govc.
+package nats
+
+import (
+	nats "github.com/nats-io/nats.go"
+	"github.com/resgateio/resgate/server/mq"
+	"github.com/resgateio/resgate/server/reserr"
+)
+
+var _ = nats.NewInbox
+var _ = mq.ErrRequestTimeout
+var _ = reserr.ErrTimeout
+
+// The completion callback of a pending request lives in its responseCont; whoever removes the
+// entry from mqReqs invokes it (listener or onTimeout, both under c.mu).
+//@ pending responseCont.f
+//@ immutable responseCont.isReq, responseCont.f
+
+// Every registered entry is a responseCont (data-structure invariant).
+//@ define predReqsOK(c *Client) bool = c != nil && c.mqReqs != nil &&
+//@     (forall s *nats.Subscription :: has(c.mqReqs, s) ==> c.mqReqs[s] != nil)
+
+// onTimeout: a request that is no longer pending is left alone; a pending one is removed first
+// and then completed exactly once with system.timeout.
+//@ func (*Client).onTimeout
+//@   requires c != nil && typeis(v, *nats.Subscription) && v.(*nats.Subscription) != nil
+//@   assumes predReqsOK(c)
+//@   ensures[C18] old(has(c.mqReqs, v.(*nats.Subscription))) ==> invoked() == old(invoked()) + 1
+//@   ensures[C18] !old(has(c.mqReqs, v.(*nats.Subscription))) ==> invoked() == old(invoked())
+//@   assert[C18] rc.f#1: arg2 == mq.ErrRequestTimeout && !has(c.mqReqs, sub)
+//@   safety[C15]
+
+// SendRequest: the callback is completed with an error (on another goroutine) or registered as
+// pending, exactly one of the two; a subject that cannot fit a control line is refused with
+// system.subjectTooLong before anything is sent, and whatever is published fits.
+//@ func (*Client).SendRequest
+//@   requires c != nil
+//@   assumes predReqsOK(c) && c.mq != nil && c.tq != nil
+//@   resolves[C18] cb exactly-once
+//@   ensures[C18] forall s *nats.Subscription :: old(has(c.mqReqs, s)) ==> has(c.mqReqs, s)
+//@   safety[C15]
+
+// Subscribe: a namespace that cannot fit a SUB control line is refused.
+//@ func (*Client).Subscribe
+//@   requires c != nil
+//@   assumes predReqsOK(c) && c.mq != nil
+//@   ensures[C18] result1 == nil ==> result0 != nil
+//@   safety[C15]
+
+// Unsubscribe removes the entry, so that no later message reaches the callback.
+//@ func (*Subscription).Unsubscribe
+//@   requires s != nil && s.c != nil && s.sub != nil
+//@   assumes predReqsOK(s.c)
+//@   ensures[C18] !has(s.c.mqReqs, s.sub)
+//@   safety[C15]
+
+// listener: for a pending request the first message that is not a pre-response removes the
+// entry before the one callback of that message; a pre-response invokes nothing and keeps the
+// entry; a message for an unknown subscription does nothing.
+//@ func (*Client).listener
+//@   requires c != nil
+//@   assumes predReqsOK(c) && c.tq != nil
+//@   assert[C18] rc.f#1: arg2 == mq.ErrNoResponders && rc.isReq && !has(c.mqReqs, msg.Sub)
+//@   assert[C18] rc.f#2: arg2 == nil && (rc.isReq ==> !has(c.mqReqs, msg.Sub))
+//@   loop 1 assume predReqsOK(c) && c.tq != nil && msg != nil
+//@   safety[C15]
+
+// onClose: the closed handler, if set, is invoked with the cause.
+//@ func (*Client).onClose
+//@   requires c != nil && conn != nil
+//@   ensures[C18,C20] old(c.closeHandler) != nil ==> invoked() == old(invoked()) + 1
+//@   ensures[C18,C20] old(c.closeHandler) == nil ==> invoked() == old(invoked())
